@@ -108,6 +108,12 @@ pub fn check(ctx: &mut Ctx) {
     drive(ctx, "std", n, 1200, &decode, &check_case);
     let n = ctx.tier.pick(100_000, 1_000_000);
     drive(ctx, "live", n, 400, &decode_fuse, &check_live);
+    let (per, len) = ctx.tier.pick((2, 3000), (10, 12000));
+    for fc in super::c08::real_list_slices(ctx, per, len) {
+        let nc = NetCase { rules: fc.rules.into_iter().filter(|r| !r.contains("##") && !r.contains("#@#") && !r.contains("#?#")).collect(), tags: vec![], reqs: fc.reqs };
+        crate::run::run_one(ctx, "real-lists", &nc, &check_case);
+        crate::run::run_one(ctx, "real-lists-live", &nc, &check_live);
+    }
 }
 
 pub fn replay(ctx: &mut Ctx, v: &Value) {
